@@ -3,7 +3,10 @@ Only to be run by hand after each row has been confirmed by reading (infer - con
 import json, sys
 sys.path.insert(0, '/verif')
 from sa.pm import Program
+import rules.formulation as RF
 from rules.formulation import current_table, TABLE
+RF.FREEZE_MODE = True
+RF._TABLE_KEYS = set()
 tab = current_table(Program())
 json.dump(tab, open(TABLE, 'w'), indent=1, sort_keys=True)
 print(sum(len(v) for v in tab.values()), "effects in", len(tab), "methods")
